@@ -255,6 +255,25 @@ def write_replay(prop, bucket, failure):
     return path
 
 
+def run_regressions(prop, module, stats):
+    """The replay tier: every committed regress/<id>/*.json (the shrunk case of a defect that
+    was fixed in the repository, or of a known finding) goes through the check's own replay
+    entry into the same Stats, so a returning defect lands in its bucket like any other
+    failure and a known finding is matched by the known-findings file, not by this list."""
+    d = os.path.join(env.VERIF_ROOT, 'regress', prop)
+    if not os.path.isdir(d):
+        return
+    n = 0
+    for name in sorted(os.listdir(d)):
+        if not name.endswith('.json'):
+            continue
+        with open(os.path.join(d, name)) as f:
+            data = json.load(f)
+        module.replay(data['case'], stats)
+        n += 1
+    stats.extra['regress_replayed'] = n
+
+
 def validate_evidence(ev):
     for k in ('property_id', 'tier', 'seed', 'level', 'coverage', 'wall_s'):
         if k not in ev:
@@ -357,6 +376,7 @@ def main(argv):
             print('replay: property held on this case')
             return env.EXIT_OK
         stats = module.run(ctx)
+        run_regressions(prop, module, stats)
         return finish(ctx, module, stats, sigtools_file)
     except HarnessError as e:
         print('HARNESS-ERROR %s: %s' % (prop, e), file=sys.stderr)
